@@ -396,7 +396,7 @@ class DynamicUpdateSlicePlugin(PrimitiveLeafPlugin):
                             upd_val,
                             write_indices,
                             axis=seq_axis,
-                            mode="none",
+                            mode="linear",
                             _outputs=[out_name],
                         ),
                     )
